@@ -26,11 +26,10 @@ ALLK = {"body", "hdr", "trunc", "drop", "cut", "swap", "replay"}
 def mc_cfgs(ctx):
     """(name, constants, property) for the exhaustive runs."""
     base = dict(U, MaxOps=200, MaxPend=1, MaxQueue=3, MaxFrames=2, Phased=True, RoomSizes={1, 20})
-    fixed = dict(base, CHUNK=3)      # proposed fix: chunk = largest payload snow accepts
-    code = dict(base, CHUNK=4)       # as in the code: MAX_FRAME_LEN = MSG - TAG
+    fixed = dict(base, CHUNK=3)      # as in the code: MAX_FRAME_LEN = MSG - 1 - TAG, the largest payload snow accepts
     out = [
         ("reader11", dict(fixed, R=1, W=1, WSizes={1, 3}, RBufs={1, 3}, ChunkSizes={1, 2}, MaxWrites=2, PlanKinds=set()), "StepOK"),
-        ("code", dict(code, R=1, W=2, WSizes={1, 3, 4, 7}, RBufs={3}, ChunkSizes={2}, MaxWrites=3, MaxPend=0, MaxQueue=2, PlanKinds=set()), "StepOKKF"),
+        ("writer2", dict(fixed, R=1, W=2, WSizes={1, 3, 4, 7}, RBufs={3}, ChunkSizes={2}, MaxWrites=3, MaxPend=0, MaxQueue=2, PlanKinds=set()), "StepOK"),
         ("attacks", dict(fixed, R=1, W=1, WSizes={1, 3}, RBufs={1, 3}, ChunkSizes={1, 2}, MaxWrites=2, MaxQueue=2, RoomSizes={20}, PlanKinds=ALLK), "StepOK"),
     ]
     if not ctx.quick():
@@ -52,11 +51,14 @@ GEN_LINES = ["SPECIFICATION Spec", "VIEW View", "ACTION_CONSTRAINT Emit", "CHECK
 
 
 def gen_cfgs(ctx):
-    base = dict(U, R=1, W=1, CHUNK=4, RBufs={1, 3}, MaxWrites=2, MaxOps=200, MaxPend=1, MaxQueue=2, MaxFrames=2, Phased=True)
+    base = dict(U, R=1, W=1, CHUNK=3, RBufs={1, 3}, MaxWrites=2, MaxOps=200, MaxPend=1, MaxQueue=2, MaxFrames=2, Phased=True)
     out = [
         ("g1", dict(base, RoomSizes={20}, WSizes={2, 3}, ChunkSizes={2}, PlanKinds={"body", "drop"})),
         ("g2", dict(base, RoomSizes={20}, WSizes={1, 3}, ChunkSizes={1}, MaxQueue=3, PlanKinds=set())),
     ]
+    # multi-frame writes, partial accepts (W=1) and two buffered frames (W=2)
+    out.append(("g4", dict(base, W=2, RoomSizes={20}, WSizes={4, 7}, RBufs={3}, ChunkSizes={2}, MaxPend=0, PlanKinds=set())))
+    out.append(("g5", dict(base, W=1, RoomSizes={1, 20}, WSizes={5}, RBufs={3}, ChunkSizes={2}, MaxWrites=1, MaxPend=0, PlanKinds=set())))
     if not ctx.quick():
         out.append(("g3", dict(base, W=2, RoomSizes={3, 20}, WSizes={3}, ChunkSizes={2}, MaxPend=0, PlanKinds=ALLK)))
     return out
@@ -100,20 +102,11 @@ def check(ctx):
         behs = behs[:cap]
     log("GEN: %d behaviours (one per transition), %d replayed: %s" % (total_behs, len(behs), gstats))
     build_s = cargo_build(ctx, ["noisepipe"])
-    summ, _ = run_harness(ctx, behs, 1500 if ctx.quick() else 30000, 3 if ctx.quick() else 6, ctx.path("trace.ndjson"))
+    summ, _ = run_harness(ctx, behs, 1500 if ctx.quick() else 30000, 24 if ctx.quick() else 200, ctx.path("trace.ndjson"))
     log("HARNESS: %s (build %ss)" % (summ, build_s))
     lines = read_lines(ctx.path("trace.ndjson"))
-    is_reset = lambda ln: '"e":"reset"' in ln
-    segs = split_segments(lines, is_reset)
-    # partition by *input*: schedules that contain a single write of >= 65520 bytes (all of them hit the
-    # recorded finding) are validated on their own so that they cannot eat the rejection budget of the rest
-    def has_big(seg):
-        return any('"e":"write"' in ln and json.loads(ln)["req"] >= 65520 for ln in seg[1:])
-    big = [s for s in segs if has_big(s)]
-    rest = [s for s in segs if not has_big(s)]
-    nseg, nev, rejects = validate_segments(ctx, "NoisePipeTrace.tla", "NoisePipeTrace.cfg", [l for s in rest for l in s], mode="prop", max_rejects=8)
-    nb, nbe, rej_big = validate_segments(ctx, "NoisePipeTrace.tla", "NoisePipeTrace.cfg", [l for s in big[:4] for l in s], mode="prop", max_rejects=4, tag="b")
-    nseg, nev, rejects = nseg + nb, nev + nbe, rejects + rej_big
+    segs = split_segments(lines, lambda ln: '"e":"reset"' in ln)
+    nseg, nev, rejects = validate_segments(ctx, "NoisePipeTrace.tla", "NoisePipeTrace.cfg", lines, mode="prop", max_rejects=8)
     violations = []
     for seg, idx in rejects:
         violations.append({"sig": classify(seg, idx),
@@ -128,12 +121,14 @@ def check(ctx):
                          "not forbidden by C02 (nothing is delivered), recorded only" % summ["panics_on_repoll_after_error"])
     distinct = len({"\n".join(s[1:]) + json.dumps(json.loads(s[0])["plan"]) for s in segs})
     light = sum(1 for s in segs if '"light":true' in s[0])
-    for k in ("reader_aux_tail_states", "reader_carry1_states", "reader_partial_frame_states", "writer_two_frames_buffered",
-              "write_pending", "quiesced"):
+    known = load_known(ctx.pid)
+    judged = not any(v["sig"] not in known for v in violations)   # a verdict is never masked by a coverage complaint
+    for k in () if not judged else ("reader_aux_tail_states", "reader_carry1_states", "reader_partial_frame_states", "writer_two_frames_buffered",
+              "write_pending", "write_partial", "quiesced"):
         if not summ.get(k):
             raise ToolError("coverage hole: the real runs never reached %s" % k)
     for k in ALLK | {"none"}:
-        if not summ["by_plan"].get(k):
+        if judged and not summ["by_plan"].get(k):
             raise ToolError("coverage hole: no real run with attack kind %s" % k)
     cov = {
         "states": sum(m["distinct"] for m in mc),
@@ -191,7 +186,6 @@ def selftest(ctx):
         rc, out = run(["tlc", "-workers", "6", "-metadir", ctx.metadir(), "-cleanup", "-noGenerateSpecTE", "-config", cfg,
                        os.path.join(d, "NoisePipeMC.tla")], timeout=600, cwd=d, env={"JAVA_TOOL_OPTIONS": "-Xss512m"})
         bad = "is violated" in out
-        log("  (%.0fs)" % (time.time() - ctx.t0))
         log("selftest model mutant '%s' -> %s" % (name, "property violated (good)" if bad else "NOT DETECTED"))
         ok &= bad
     # (c) reachability of the interesting situations in the bounded model (transition counts)
@@ -247,8 +241,8 @@ def selftest(ctx):
                   lambda e: e.update(res="ok", len=1, start=0), "tamper error turned into data")
     ok &= corrupt(rd, lambda e: e["st"].update(nread=e["st"]["nread"] + 1), "reader cursor nread", mode="impl")
     # harness-level faults: the whole pipeline must flag them
-    for fault in ("dup", "lose", "flip", "swallow_err"):
-        harness(ctx, "noisepipe", ["--systematic", "--seed", ctx.seed, "--out", ctx.path("f.ndjson")], env={"VERIF_FAULT": fault})
+    for fault in ("dup", "lose", "flip", "swallow_err", "write_req"):
+        harness(ctx, "noisepipe", ["--systematic", "--big", 40, "--seed", ctx.seed, "--out", ctx.path("f.ndjson")], env={"VERIF_FAULT": fault})
         fl = read_lines(ctx.path("f.ndjson"))
         _, _, rej = validate_segments(ctx, "NoisePipeTrace.tla", "NoisePipeTrace.cfg", fl, max_rejects=1, tag="f")
         log("selftest harness fault %s -> %s" % (fault, "rejected (%s)" % classify(*rej[0]) if rej else "ACCEPTED"))
